@@ -182,7 +182,7 @@ def gen_case(rng, tier):
                                    ('label', 'start'), ('label', 'after'), ('label', 'fwd'),
                                    ('label', 'kone')] +
                                   # a character literal is an operand text too (not inside [ ]: the bracket pattern admits no quote)
-                                  ([('char', rng.choice(['@', 'A', '#', '(', '$']))] if k == 'num' else []))
+                                  ([('char', rng.choice(['@', '@', 'A', '#', '(', '$']))] * 2 if k == 'num' else []))
                 if twin and rng.random() < 0.7:
                     atom = rng.choice([('label', 'kone'), ('label', 'ktwo')])
                 t = str(atom[1]) if atom[0] != 'char' else "'" + atom[1] + "'"
